@@ -141,6 +141,75 @@ def run(ctx):
     res.site(key, True, {"edge_kinds_tested": kinds, "verdict": "ok" if ok else "VIOLATION"})
     if not ok:
         res.find(key, asch.loc(), "the traversal filter and the predecessor filter of as_schedule do not both (and only) test ExecutionDependency::Scheduled: %s" % kinds, "an instruction starts before a timed predecessor ends, or waits for an untimed one")
+    # R2b the start time is the LATEST end among the timed predecessors: the fold over their end times keeps the larger
+    # of (accumulator, element), starting from zero
+    from qv.rules import truth as _truth
+
+    key = "K9|start-is-latest-predecessor-end"
+    folds = [(bb, t) for bb, t, c in asch.calls() if c and c.get("name") == "fold" and len(t["args"]) == 3]
+    ok = False
+    detail = {"folds": len(folds)}
+    if len(folds) == 1:
+        init = fn_expr_operand(asch, folds[0][1]["args"][1])
+        clo = fn_expr_operand(asch, folds[0][1]["args"][2])
+        gs = db.by_path.get(clo[1], []) if clo[0] == "closure" else []
+        if len(gs) == 1:
+            g = gs[0]
+            sel = _truth.select_of(g, 0)
+            same = lambda a, b: a == b or (a[0] == "param" and b[0] == "param" and a[1] == b[1])
+            mm = _truth.minmax_of(sel, same)
+            both = mm is not None and {mm[1][1] if mm[1][0] == "param" else None, mm[2][1] if mm[2][0] == "param" else None} == {2, 3}
+            init_zero = init[0] == "call" and init[1].rsplit("::", 1)[-1] == "zero"
+            ok = bool(mm) and mm[0] == "max" and both and init_zero
+            detail.update({"combination": mm[0] if mm else None, "of_accumulator_and_element": both, "starts_from_zero": init_zero})
+        elif clo[0] in ("fnconst",) and clo[1].rsplit("::", 1)[-1] == "max":
+            ok = True
+            detail["combination"] = "max (function)"
+    res.site(key, True, dict(detail, verdict="ok" if ok else "VIOLATION"))
+    if not ok:
+        res.find(key, asch.loc(), "the start time of an instruction is not the maximum of its timed predecessors' end times (fold from zero keeping the larger value): %s" % detail, "an instruction with two timed predecessors of different length starts when the shorter one ends")
+    # R2c the schedule's duration is the latest end time: it is overwritten with an item's end time exactly when that end
+    # time is later
+    key = "K7|duration-is-latest-end"
+    stores = []
+    for i, j, st in asch.stmts():
+        if st["k"] == "assign" and any(isinstance(pr, dict) and pr.get("n") == "duration" and str(pr.get("o", "")).endswith("::Schedule") for pr in st["p"]["pr"]):
+            deps = sorted(asch.control_deps(i, transitive=False))
+            if deps:
+                stores.append((i, st, deps))
+    ok = False
+    detail = {"conditional_duration_stores": len(stores)}
+    if len(stores) == 1:
+        i, st, deps = stores[0]
+        from qv.engine import fn_expr_rvalue as _rv25
+
+        val = _rv25(asch, st["rv"])
+        while val[0] == "call" and val[1].rsplit("::", 1)[-1] == "clone" and val[2]:
+            val = val[2][0]
+        if len(deps) == 1:
+            sb, tgt = deps[0]
+            tt = asch.blocks[sb]["t"]
+            cond = fn_expr_operand(asch, tt["d"]) if tt["k"] == "switch" else ("x",)
+            if cond[0] == "call" and cond[1].rsplit("::", 1)[-1] in ("lt", "gt", "le", "ge") and len(cond[2]) == 2:
+                op = cond[1].rsplit("::", 1)[-1]
+                a0, a1 = cond[2]
+                strip = lambda e: e[2][0] if e[0] == "call" and e[1].rsplit("::", 1)[-1] == "clone" and e[2] else e
+                a0, a1 = strip(a0), strip(a1)
+                is_dur = lambda e: e[0] == "field" and e[2] == "duration"
+                false_targets = [target for v, target in tt["ts"] if int(v) == 0]
+                on_true = bool(false_targets) and tgt not in false_targets
+                # stored when duration < end  (or end > duration)
+                if is_dur(a0) and a1 == val:
+                    later = (op in ("lt", "le")) == on_true
+                elif is_dur(a1) and a0 == val:
+                    later = (op in ("gt", "ge")) == on_true
+                else:
+                    later = None
+                ok = later is True and val[0] == "call" and val[1].rsplit("::", 1)[-1] == "add"
+                detail.update({"comparison": op, "stored_when_end_is_later": later, "stored_value_is_end_time": val[0] == "call" and val[1].rsplit("::", 1)[-1] == "add"})
+    res.site(key, True, dict(detail, verdict="ok" if ok else "VIOLATION"))
+    if not ok:
+        res.find(key, asch.loc(), "Schedule::duration is not raised to an item's end time exactly when that end time is later (%s)" % detail, "a block whose last scheduled item ends before an earlier, longer one reports the shorter duration")
     # R3 items
     pushes = [(bb, t) for bb, t, c in asch.calls() if c and c.get("name") == "push" and "Vec" in callee_path(c)]
     inserts = [(bb, t) for bb, t, c in asch.calls() if c and c.get("name") == "insert" and "HashMap" in callee_path(c)]
